@@ -715,7 +715,11 @@ func c20Ops() []c20Op {
 	fl("File.ReadFromWithConcurrency", base, rw, func(f *File) string {
 		return ne(f.ReadFromWithConcurrency(c20Opaque{bytes.NewReader(data10)}, 2))
 	})
-	wt := func(f *File) string { var b bytes.Buffer; n, err := f.WriteTo(&b); return fmt.Sprintf("n=%d err=%s got=%q", n, c20Err(err), b.String()) }
+	wt := func(f *File) string {
+		var b bytes.Buffer
+		n, err := f.WriteTo(&b)
+		return fmt.Sprintf("n=%d err=%s got=%q", n, c20Err(err), b.String())
+	}
 	fl("File.WriteTo(concurrent, Stat)", base, rd, wt)
 	fl("File.WriteTo(concurrent, Fstat)", fst, rd, wt)
 	fl("File.WriteTo(sequential)", seqR, rd, wt)
